@@ -78,7 +78,10 @@ VClausesPlain(c) ==
               (\A r \in DOMAIN t1 : t1[r].ok => Len(t1[r].elems) >= 1) /\ (\A r \in DOMAIN t0 : t0[r].ok => Len(t0[r].elems) >= 1))
      \* (aliases without elements are left open: PassClauses!NoEmptyAlias)
      \cup F("literal_rejected_at_parse", LiteralInvalid(c.model) /\ AllNonEmpty(c.model, <<>>) /\ ~allok /\ StageIdx(ff.stage) > 1)
-     \cup F("known_by_let_stage", ~ValidAll(StripCalls(c.model), c.ovr) /\ ~allok /\ StageIdx(ff.stage) > 2)
+     \* (a negative loop / subcircuit count is not a reference C14 speaks about - see NegCount: a program with one is
+     \*  "invalid" for the specification, but nothing says it is refused by the let stage)
+     \cup F("known_by_let_stage", ~ValidAll(StripCalls(c.model), c.ovr) /\ ~allok /\ StageIdx(ff.stage) > 2
+                                   /\ ~NegCount(Meaning(StripCalls(c.model), c.ovr)))
      \cup F("honoured", valid /\ allok /\ c.hooked /\
             LET tree == ExecTree(c.model, c.ovr)
                 d == DiscoverRule(tree)
